@@ -137,8 +137,9 @@ def main():
         shutil.rmtree(SCRATCH, ignore_errors=True)
     elif len(sys.argv) >= 2 and sys.argv[1] == "import":
         # import the deliverables of a mutation sub-agent: /tmp/seed/<pid>/out/{A,B}
+        letters = os.environ.get("SEED_LETTERS", "A,B,C,D,E").split(",")
         for pid in sys.argv[2:]:
-            for x in ("A", "B", "C", "D", "E"):
+            for x in letters:
                 src = f"{os.environ.get('SEED_BASE', '/tmp/seed')}/{pid}/out/{x}"
                 if not os.path.exists(os.path.join(src, "patch.diff")):
                     continue
@@ -152,7 +153,7 @@ def main():
                 except Exception:
                     meta = {}
                 meta["property"] = pid
-                meta["author"] = "independent sub-agent given only the property text and a scratch worktree"
+                meta["author"] = os.environ.get("SEED_AUTHOR", "independent sub-agent given only the property text and a scratch worktree")
                 json.dump(meta, open(os.path.join(dst, "meta.json"), "w"), indent=1)
                 print("imported", dst)
     elif len(sys.argv) >= 2 and sys.argv[1] == "revert-patches":
